@@ -7,6 +7,7 @@ import OsmVerif.Oracle.C14
 import OsmVerif.Oracle.C20
 import OsmVerif.Oracle.C11
 import OsmVerif.Oracle.C17
+import OsmVerif.Oracle.C04
 /-! Line-protocol driver: one case per input line `<Cxx> <op> <payload…>`, one output line each. -/
 open OsmVerif.Oracle
 
@@ -21,6 +22,8 @@ def dispatch (line : String) : String :=
   | "C20" :: rest => C20.handle rest
   | "C11" :: rest => C11.handle rest
   | "C17" :: rest => C17.handle rest
+  | "C04" :: rest => C04.handle rest
+  | "C03" :: rest => C04.handle rest
   | "C16" :: rest => C17.handle rest
   | "C12" :: rest => C11.handle rest
   | _ => "bad-op"
